@@ -58,6 +58,7 @@ type Chan struct {
 }
 
 type Node struct {
+	ApplyHold bool // the SQL thread is busy (a long transaction): it applies nothing for now
 	Host    string
 	UUID    string
 	Up      bool // mysqld process alive
@@ -590,7 +591,7 @@ func (w *World) ReplicateLocked(n *Node) {
 			n.Retrieved = GtidUnion(n.Retrieved, src.Executed)
 		}
 	}
-	if n.Chan.SQL && n.Chan.SQLErrno == 0 {
+	if n.Chan.SQL && n.Chan.SQLErrno == 0 && !n.ApplyHold {
 		n.Executed = GtidUnion(n.Executed, n.Retrieved)
 	}
 }
